@@ -147,6 +147,7 @@ fn _param_list_openqasm(p: &mut Parser<'_>, flavor: DefFlavor) {
 
     // Parse items until EOF or an end token is seen.
     while !p.at(EOF) && !at_list_end_token(p, flavor) {
+        let pos_at_iteration_start = p.position();
         let m = p.start();
 
         let inner_array_literal = p.at(T!['{']);
@@ -192,6 +193,11 @@ fn _param_list_openqasm(p: &mut Parser<'_>, flavor: DefFlavor) {
             }
         };
         if !found_param {
+            break;
+        }
+        if p.position() == pos_at_iteration_start {
+            // The element parser reported errors but consumed nothing (for instance a literal
+            // where a typed parameter is expected). Stop, otherwise this loop never ends.
             break;
         }
         num_params += 1;
